@@ -24,7 +24,7 @@ ASSUMPTIONS = ['integer tables; values within int64']
 BATCH = 100
 FMT = {'%.5f': 0, '%.0f': 1, '%d': 2}
 HEADERS = [None, 'x', 'col1 col2', 'first line\nsecond line', 'with # hash', '# starts with hash\n\nblank line above',
-           'tab\tseparated', 'trailing newline\n', '1 2 3', 'a\rb']
+           'tab\tseparated', 'trailing newline\n', '1 2 3', 'a\rb', 'x_{1} x_{2}', "{'lagtime': 10}", 'open { brace', '{} {user} {0}', '100% %d %s']
 
 
 def _table(rng):
@@ -148,6 +148,11 @@ def impl(case):
                 return {'err': errkind(exc), 'msg': str(exc)[:100]}
         # a file with the model's rendering is written by the driver into case['model_bytes'] (second pass)
         out['read'] = guarded(lambda: mh.opentxt(f, **kw))
+        # the same read through the several-comment-characters path (np.loadtxt fallback)
+        # (np.loadtxt has its own conventions for one-row files and for float-formatted integers with an integer
+        # dtype, which the property does not cover: only integer-formatted tables with at least two rows)
+        if case['fmt'] in ('%d', '%.0f') and len(case['table']) >= 2 and (case['nrows'] is None or case['nrows'] >= 2):
+            out['read_multi'] = guarded(lambda: mh.opentxt(f, comment=['#', '@'], **kw))
         lf = None
         if case['limits'] is not None:
             lf = os.path.join(d, 'limits.dat')
@@ -227,7 +232,7 @@ def judge(case, ibc, answers):
             sel = sel[:nrows]
         if not cr and model_read != ('ok', sel):
             probs.append({'kind': 'model-vs-spec', 'cfg': '-', 'finding': None, 'what': 'model does not read the written file back: %s' % C.short(model_read, 100)})
-        for tag in ('read', 'read_model'):
+        for tag in ('read', 'read_model', 'read_multi'):
             if tag not in r:
                 continue
             got = r[tag]
